@@ -627,3 +627,139 @@ func cleanRun(t *testing.T, rng *rand.Rand, cfg Cfg, delay int, useUpdate bool, 
 		active = nil
 	})
 }
+
+// runCollect executes a behaviour at the given offsets and returns the normalised observation of every step.
+func runCollect(t *testing.T, b behaviour, sn1, sn2, clk uint32) (lines []map[string]any, crossed bool) {
+	synctest.Test(t, func(t *testing.T) {
+		w := NewWorld(b.Cfg, sn1, sn2, clk)
+		for _, st := range b.Steps {
+			if !w.Enabled(st.A) {
+				lines = append(lines, map[string]any{"skipped": true})
+				continue
+			}
+			obs, _ := w.Step(st.A)
+			o := map[string]any{"name": st.A.Name, "e": st.A.E, "ret": obs.Ret, "out": obs.Out, "rdn": obs.RdN, "rdok": obs.RdOk,
+				"now": w.Elapsed(), "panic": obs.Panic != "", "net": w.NetProj()}
+			if st.A.E >= 1 && st.A.E <= 2 {
+				o["st"] = w.Proj(st.A.E)
+			}
+			lines = append(lines, o)
+			if obs.Panic != "" {
+				break
+			}
+		}
+		// did the shifted run cross a 2^31 / 2^32 boundary in sn or clock?
+		for e := 1; e <= 2; e++ {
+			s := w.K[e].VerifState()
+			for _, bnd := range []uint32{0, 0x80000000} {
+				if int32(s.SndNxt-bnd) >= 0 && int32(w.SnOff[e]-bnd) < 0 {
+					crossed = true
+				}
+			}
+		}
+		for _, bnd := range []uint32{0, 0x80000000} {
+			if int32(kcpNow()-bnd) >= 0 && int32(w.Clk-bnd) < 0 {
+				crossed = true
+			}
+		}
+		active = nil
+	})
+	return
+}
+
+// TestCorePairs (C12): each behaviour at offset 0 and at boundary offsets; observations paired line by line.
+func TestCorePairs(t *testing.T) {
+	in := vh.EnvStr("VERIF_IN", "")
+	if in == "" {
+		t.Skip("VERIF_IN not set")
+	}
+	out := vh.OutDir(t)
+	bs, err := readBehaviours(filepath.Join(in, "core_behaviours.ndjson"))
+	vh.Must(err)
+	rng := rand.New(rand.NewSource(vh.Seed()*49979687 + 3))
+	tf, err := vh.OpenTraceFile(filepath.Join(out, "core_pairs.ndjson"))
+	vh.Must(err)
+	sum := newSummary()
+	reps := vh.EnvInt("PAIR_REPS", 2)
+	for i, b := range bs {
+		base, _ := runCollect(t, b, 0, 0, 0)
+		for r := 0; r < reps; r++ {
+			sn1, sn2, clk := boundaryOffset(rng), boundaryOffset(rng), boundaryClock(rng)
+			shifted, crossed := runCollect(t, b, sn1, sn2, clk)
+			tr := &vh.Trace{}
+			n := len(base)
+			if len(shifted) < n {
+				n = len(shifted)
+			}
+			for j := 0; j < n; j++ {
+				tr.Add(map[string]any{"ev": "pair", "a": base[j], "b": shifted[j], "panic": false})
+			}
+			if len(base) != len(shifted) {
+				tr.Add(map[string]any{"ev": "pair", "a": map[string]any{"len": len(base)}, "b": map[string]any{"len": len(shifted)}, "panic": false})
+			}
+			tf.WriteTrace(map[string]any{"cfg": b.Cfg, "src": fmt.Sprintf("%s#%d", b.Src, i), "sn": []uint32{sn1, sn2}, "clk": clk,
+				"clean": false, "forged": true}, tr)
+			sum.Steps += n
+			if crossed {
+				sum.Nontrivial++
+				sum.Kinds["crossed-boundary"]++
+			}
+		}
+		sum.Behaviours++
+	}
+	vh.Must(tf.Close())
+	sum.Traces, sum.Lines = tf.N, tf.L
+	vh.WriteJSON(filepath.Join(out, "core_pairs.json"), sum)
+}
+
+// TestCoreActions re-executes the action list of a replay file (actions carry the datagram fed to Input, so the
+// network is not re-simulated: "Deliver"/"Forge" lines are applied as Input of the recorded datagram).
+func TestCoreActions(t *testing.T) {
+	in := vh.EnvStr("VERIF_IN", "")
+	if in == "" {
+		t.Skip("VERIF_IN not set")
+	}
+	out := vh.OutDir(t)
+	var rp struct {
+		Meta struct {
+			Cfg    Cfg  `json:"cfg"`
+			Clean  bool `json:"clean"`
+			Forged bool `json:"forged"`
+		} `json:"meta"`
+		Actions []struct {
+			Name string `json:"name"`
+			E    int    `json:"e"`
+			A    int    `json:"a"`
+			B    int    `json:"b"`
+			Now  int    `json:"now"`
+			In   *DgJ   `json:"in"`
+		} `json:"actions"`
+	}
+	vh.Must(vh.ReadJSON(filepath.Join(in, "core_actions.json"), &rp))
+	tf, err := vh.OpenTraceFile(filepath.Join(out, "core_actions.ndjson"))
+	vh.Must(err)
+	synctest.Test(t, func(t *testing.T) {
+		w := NewWorld(rp.Meta.Cfg, 0, 0, 0)
+		tr := &vh.Trace{}
+		for _, a := range rp.Actions {
+			if d := a.Now - w.Elapsed(); d > 0 {
+				w.Step(Act{Name: "Tick", A: d})
+			}
+			act := Act{Name: a.Name, E: a.E, A: a.A, B: a.B}
+			switch a.Name {
+			case "Tick", "Drop":
+				continue
+			case "Deliver", "Forge", "Input":
+				// rebuild the recorded datagram and feed it directly
+				obs, in := w.InputRecorded(a.E, a.In)
+				record(tr, w, Act{Name: "Input", E: a.E}, obs, in)
+				continue
+			}
+			obs, in := w.Step(act)
+			record(tr, w, act, obs, in)
+		}
+		tf.WriteTrace(map[string]any{"cfg": rp.Meta.Cfg, "src": "replay-file", "clean": rp.Meta.Clean, "forged": rp.Meta.Forged}, tr)
+		active = nil
+	})
+	vh.Must(tf.Close())
+}
